@@ -627,6 +627,9 @@ func (handler *Handler) processBinaryDataRow(ctx context.Context, rowData []byte
 	// 1 - packet header
 	// 7 + 2 offset from docs
 	pos = 1 + ((len(fields) + 7 + 2) >> 3)
+	if len(rowData) < pos {
+		return nil, base_mysql.ErrMalformPacket
+	}
 	nullBitmap := rowData[1:pos]
 	output = append(output, rowData[:pos]...)
 
@@ -672,27 +675,35 @@ func (handler *Handler) extractData(pos int, rowData []byte, field *ColumnDescri
 		fieldType = field.originType
 	}
 
+	// values of numeric types have fixed size that should fit into the rest of the row
+	fixedSizeValue := func(size int) ([]byte, int, error) {
+		if pos < 0 || len(rowData)-pos < size {
+			return nil, 0, base_mysql.ErrMalformPacket
+		}
+		return rowData[pos : pos+size], size, nil
+	}
+
 	switch fieldType {
 	case base_mysql.TypeNull:
 		return []byte{}, 0, nil
 
 	case base_mysql.TypeTiny:
-		return rowData[pos : pos+1], 1, nil
+		return fixedSizeValue(1)
 
 	case base_mysql.TypeShort, base_mysql.TypeYear:
-		return rowData[pos : pos+2], 2, nil
+		return fixedSizeValue(2)
 
 	case base_mysql.TypeInt24, base_mysql.TypeLong:
-		return rowData[pos : pos+4], 4, nil
+		return fixedSizeValue(4)
 
 	case base_mysql.TypeLongLong:
-		return rowData[pos : pos+8], 8, nil
+		return fixedSizeValue(8)
 
 	case base_mysql.TypeFloat:
-		return rowData[pos : pos+4], 4, nil
+		return fixedSizeValue(4)
 
 	case base_mysql.TypeDouble:
-		return rowData[pos : pos+8], 8, nil
+		return fixedSizeValue(8)
 
 	case base_mysql.TypeDecimal, base_mysql.TypeNewDecimal, base_mysql.TypeBit, base_mysql.TypeEnum, base_mysql.TypeSet, base_mysql.TypeGeometry, base_mysql.TypeDate, base_mysql.TypeNewDate, base_mysql.TypeTimestamp, base_mysql.TypeDatetime, base_mysql.TypeTime, base_mysql.TypeVarchar, base_mysql.TypeTinyBlob, base_mysql.TypeMediumBlob, base_mysql.TypeLongBlob, base_mysql.TypeBlob, base_mysql.TypeVarString, base_mysql.TypeString:
 		value, n, err := base_mysql.LengthEncodedString(rowData[pos:])
